@@ -101,20 +101,20 @@ Lemma scan_int_shape s v r :
   exists ws sg ds,
     s = ws ++ sg ++ ds ++ r /\ forallb is_c_space ws = true /\
     (sg = [] \/ sg = [45] \/ sg = [43]) /\ ds <> [] /\ forallb is_digit ds = true /\
-    v = (if list_eqb sg [45] then - dec_value ds else dec_value ds)%Z /\
+    v = (if list_eqb sg [45] then (- dec_value ds)%Z else dec_value ds) /\
     match r with c :: _ => is_digit c = false | [] => True end.
 Proof.
   unfold scan_int. destruct (skip_space_split s 0) as (ws & A & B & C).
   destruct (skip_space s 0) as [l1 n1]. cbn [fst] in *.
-  set (sl := match l1 with 45 :: r0 => (true, r0) | 43 :: r0 => (false, r0) | _ => (false, l1) end).
+  set (sl := match l1 with
+             | c :: r0 => if c =? 45 then (true, r0) else if c =? 43 then (false, r0) else (false, l1)
+             | [] => (false, l1)
+             end).
   assert (SG : exists sg, l1 = sg ++ snd sl /\ (sg = [] \/ sg = [45] \/ sg = [43]) /\ fst sl = list_eqb sg [45]).
   { subst sl. destruct l1 as [|c r0]; [exists []; cbn; auto|].
-    destruct (N.eq_dec c 45) as [->|N45]; [exists [45]; cbn; auto|].
-    destruct (N.eq_dec c 43) as [->|N43]; [exists [43]; cbn; auto|].
-    exists []. cbn [app snd fst].
-    assert (E : match c with 45 => (true, r0) | 43 => (false, r0) | _ => (false, c :: r0) end = (false, c :: r0)).
-    { destruct c as [|p]; [reflexivity|]. do 6 (destruct p as [p|p|]; try reflexivity); try lia. }
-    rewrite E. cbn. auto. }
+    destruct (c =? 45) eqn:E45; [apply N.eqb_eq in E45; subst c; exists [45]; cbn; auto|].
+    destruct (c =? 43) eqn:E43; [apply N.eqb_eq in E43; subst c; exists [43]; cbn; auto|].
+    exists []. cbn. auto. }
   destruct SG as (sg & S1 & S2 & S3). destruct sl as [neg l2]. cbn [fst snd] in *.
   destruct (digit_run_split l2) as (ds & D1 & D2 & D3 & D4 & D5).
   destruct (digit_run 10 l2) as [|d0 dr] eqn:DR; [discriminate|].
